@@ -110,19 +110,25 @@
 #define F_CAP        (fsm == CAT_FSM_TYPE_ATCMD ? CAP_AT(self) : CAP_UN(self))
 #define F_BUF        (fsm == CAT_FSM_TYPE_ATCMD ? ABUF(self) : UBUF(self))
 #define F_ASSIGNS    FMT_ASSIGNS
+/* before each callee call the callee-level prefix ghosts are refreshed: everything below the cursor, as it is now */
+#define CAT_VERIF_GHOST_ON_format_buffer_iter { g_pfx = F_POS; if (g_k < g_pfx && g_pfx <= F_CAP) g_oldtext = F_BUF[g_k]; }
+#define F_HEXAT(v, o) (((o) & 1) == 0 ? HEXCH(VBYTE(v, (o) >> 1) >> 4) : HEXCH(VBYTE(v, (o) >> 1) & 15))
 #define CAT_VERIF_LOOP_ON_format_buffer_hexadecimal \
-        __CPROVER_assigns(i, val; F_ASSIGNS) \
+        __CPROVER_assigns(i, val, g_pfx, g_oldtext; F_ASSIGNS) \
         __CPROVER_loop_invariant(i <= var->data_size && F_POS == F_POS0 + 2 * i && F_POS <= F_CAP) \
         __CPROVER_loop_invariant(i > 0 ==> (F_POS < F_CAP && F_BUF[F_POS] == 0)) \
-        __CPROVER_loop_invariant((g_j < i) ==> (F_BUF[F_POS0 + 2 * g_j] == HEXCH(VBYTE(var, g_j) >> 4) && F_BUF[F_POS0 + 2 * g_j + 1] == HEXCH(VBYTE(var, g_j) & 15))) \
-        __CPROVER_loop_invariant((g_k < F_POS0) ==> F_BUF[g_k] == g_oldtext) \
+        __CPROVER_loop_invariant((F_POS0 <= g_k && g_k < F_POS) ==> F_BUF[g_k] == F_HEXAT(var, g_k - F_POS0)) \
+        __CPROVER_loop_invariant(g_pfx1 <= F_POS0 && ((g_k < g_pfx1) ==> F_BUF[g_k] == g_oldtext1)) \
+        __CPROVER_loop_invariant(g_pfx <= F_POS && g_pfx1 <= g_pfx && ((g_k < g_pfx) ==> F_BUF[g_k] == g_oldtext)) \
         __CPROVER_decreases(var->data_size - i)
 #define CAT_VERIF_LOOP_ON_format_buffer_string \
-        __CPROVER_assigns(i, ch; F_ASSIGNS) \
-        __CPROVER_loop_invariant(i <= buf_size && F_POS0 >= 1 && F_POS >= F_POS0 && F_POS < F_CAP && F_BUF[F_POS] == 0 && F_BUF[F_POS0 - 1] == '"') \
-        __CPROVER_loop_invariant((g_k + 1 < F_POS0) ==> F_BUF[g_k] == g_oldtext) \
+        __CPROVER_assigns(i, ch, g_pfx, g_oldtext; F_ASSIGNS) \
+        __CPROVER_loop_invariant(i <= buf_size && F_POS0 >= 1 && F_POS >= F_POS0 && F_POS < F_CAP && F_BUF[F_POS] == 0) \
+        __CPROVER_loop_invariant((g_k == F_POS0 - 1) ==> F_BUF[g_k] == '"') \
+        __CPROVER_loop_invariant(g_pfx1 <= g_pfx) \
+        __CPROVER_loop_invariant(g_pfx1 + 1 <= F_POS0 && ((g_k < g_pfx1) ==> F_BUF[g_k] == g_oldtext1)) \
+        __CPROVER_loop_invariant(g_pfx <= F_POS && ((g_k < g_pfx) ==> F_BUF[g_k] == g_oldtext)) \
         __CPROVER_decreases(buf_size - i)
-
 
 /* A loop contract (and the ghost updates it talks about) is active only in the proof unit of its own
  * function (-DV_LOOP_<function>): an invariant that names a local which a change has removed then breaks
@@ -176,6 +182,16 @@
 #define CAT_VERIF_GHOST_parse_num_hexadecimal_digit CAT_VERIF_GHOST_ON_parse_num_hexadecimal_digit
 #else
 #define CAT_VERIF_GHOST_parse_num_hexadecimal_digit
+#endif
+#if defined(V_LOOP_format_buffer_hexadecimal)
+#define CAT_VERIF_GHOST_format_buffer_hexadecimal_iter CAT_VERIF_GHOST_ON_format_buffer_iter
+#else
+#define CAT_VERIF_GHOST_format_buffer_hexadecimal_iter
+#endif
+#if defined(V_LOOP_format_buffer_string)
+#define CAT_VERIF_GHOST_format_buffer_string_iter CAT_VERIF_GHOST_ON_format_buffer_iter
+#else
+#define CAT_VERIF_GHOST_format_buffer_string_iter
 #endif
 #if defined(V_LOOP_parse_buffer_string)
 #define CAT_VERIF_GHOST_parse_buffer_string_store CAT_VERIF_GHOST_ON_parse_buffer_string_store
